@@ -93,3 +93,14 @@ Theorem C08_unchanged_edit_is_noop :
     step lower_s w (CEdit None meta msg) = (op_world op, X0).
 Proof. exact unchanged_edit_is_noop. Qed.
 Print Assumptions C08_unchanged_edit_is_noop.
+
+(* `stg squash -m <msg>`: every patch of the result either carries the identity of a patch of
+   the stack before, or is the squashed patch with exactly the identity that was asked for *)
+Theorem C08_squash_identity :
+  forall lower_s, LowerOK lower_s ->
+  forall w ranges nm meta msg w' x n o',
+    Inv w -> step lower_s w (CSquash ranges nm meta msg) = (w', x) -> patch_commit w' n = Some o' ->
+    (exists a o, patch_commit w a = Some o /\ ident_of (w_objs w') o' = ident_of (w_objs w) o)
+    \/ ident_of (w_objs w') o' = Some (meta, msg).
+Proof. exact squash_identity. Qed.
+Print Assumptions C08_squash_identity.
